@@ -218,7 +218,7 @@ def _stage_once(prog: Dict[str, Any], parallel: bool, stream) -> Tuple[List[Any]
                         t1 = types.SimpleNamespace(graph_deltas=[], metrics={})
                         res = t2_semantic(ctx, state, text, t1)
                         m = res.metrics
-                        outs.append({"retrieved": [[str(x.id), round(float(x.score), 6), getattr(x, "text", "")] for x in res.retrieved],
+                        outs.append({"retrieved": [[str(x.id), round(float(x.score), 6), getattr(x, "text", ""), getattr(x, "owner", None)] for x in res.retrieved],
                                      "residual": list(res.graph_deltas_residual),
                                      "counters": {k: m.get(k) for k in ("k_returned", "k_used", "k_residual", "tier_sequence", "sim_stats", "score_stats")}})
                 info["sched"] = sched.digest()
